@@ -125,6 +125,6 @@ Print Assumptions C02_order_does_not_change_value.
    result group containing the type is gi *)
 Theorem C02_supplier_map_characterised : forall d pm provs, dpm d = Some (pm, provs) ->
   (forall t pi gi, Gen.assoc t pm = Some (pi, gi) <-> supplies provs pi gi t) /\
-  provs = Gen.d_provs d ++ flat_map fields_of (filter Gen.isstruct (Gen.d_provs d)).
+  exists ss, Permutation (filter Gen.isstruct (Gen.d_provs d)) ss /\ provs = Gen.d_provs d ++ flat_map fields_of ss.
 Proof. exact sup_char. Qed.
 Print Assumptions C02_supplier_map_characterised.
